@@ -2001,4 +2001,220 @@ theorem checkDecode_canonical {addr payload : Bytes} {id : UInt8}
           exact hrt.symm
         · cases h
 
+/-- **Completeness-style characterisation**: every accepted string is (for segwit: up to ASCII case)
+    the canonical encoding of the script it is decoded to — except that a 20-byte program may carry
+    witness version 0 or 1 and gets the version-0 script either way. -/
+theorem accepted_canonical {pk : Bytes → Bool} {net : Net} {addr sc : Bytes}
+    (h : decodeBytes pk net addr = some sc) :
+    (∃ ver prog, (ver = 0 ∨ ver = 1) ∧ lowerBytes addr = encodeSegwitBytes net.hrp ver prog ∧
+      ((prog.length = 20 ∧ sc = [0x00, 0x14] ++ prog) ∨
+       (prog.length = 32 ∧ ver = 0 ∧ sc = [0x00, 0x20] ++ prog) ∨
+       (prog.length = 32 ∧ ver = 1 ∧ sc = [0x51, 0x20] ++ prog))) ∨
+    (∃ payload, payload.length = 20 ∧
+      ((addr = encodeBase58CheckBytes net.p2pkhId payload ∧ sc = [0x76, 0xa9, 0x14] ++ payload ++ [0x88, 0xac]) ∨
+       (addr = encodeBase58CheckBytes net.p2shId payload ∧ sc = [0xa9, 0x14] ++ payload ++ [0x87]))) := by
+  rcases decodeBytes_inv h with ⟨one, ver, prog, a1, _, _, a4, a5, a6⟩ | ⟨_, _, _, payload, id, b1, b2, b3⟩
+  · left
+    have hver : ver = 0 ∨ ver = 1 := by
+      rcases a6 with ⟨_, hv, _⟩ | ⟨_, hv, _⟩ | ⟨_, hv, _⟩
+      · exact hv
+      · exact Or.inl hv
+      · exact Or.inr hv
+    have hc := segwit_accepted_canonical a1 a4 hver
+    rw [a5] at hc
+    refine ⟨ver, prog, hver, hc, ?_⟩
+    rcases a6 with ⟨hl, _, hs⟩ | ⟨hl, hv, hs⟩ | ⟨hl, hv, hs⟩
+    · exact Or.inl ⟨hl, hs⟩
+    · exact Or.inr (Or.inl ⟨hl, hv, hs⟩)
+    · exact Or.inr (Or.inr ⟨hl, hv, hs⟩)
+  · right
+    have hc := checkDecode_canonical b1
+    refine ⟨payload, b2, ?_⟩
+    rcases b3 with ⟨rfl, hs⟩ | ⟨rfl, hs⟩
+    · exact Or.inl ⟨hc, hs⟩
+    · exact Or.inr ⟨hc, hs⟩
+
+/-- **decode_injective_on_types, the exact statement** (byte level): two accepted strings with the
+    same script are equal (base58check), or equal up to ASCII case (bech32 / bech32m), or they are the
+    version-0 and the version-1 encoding of the same 20-byte program (the btcutil quirk). -/
+theorem decode_injective_partial_bytes {pk pk' : Bytes → Bool} {net : Net} {s1 s2 sc : Bytes}
+    (h1 : decodeBytes pk net s1 = some sc) (h2 : decodeBytes pk' net s2 = some sc) :
+    s1 = s2 ∨ lowerBytes s1 = lowerBytes s2 ∨
+    (∃ p v1 v2, p.length = 20 ∧ sc = [0x00, 0x14] ++ p ∧ v1 ≠ v2 ∧
+      lowerBytes s1 = encodeSegwitBytes net.hrp v1 p ∧ lowerBytes s2 = encodeSegwitBytes net.hrp v2 p) := by
+  rcases accepted_canonical h1 with ⟨v1, p1, hv1, c1, f1⟩ | ⟨q1, l1, g1⟩ <;>
+  rcases accepted_canonical h2 with ⟨v2, p2, hv2, c2, f2⟩ | ⟨q2, l2, g2⟩
+  · -- segwit / segwit
+    rcases f1 with ⟨e1, rfl⟩ | ⟨e1, w1, rfl⟩ | ⟨e1, w1, rfl⟩ <;>
+    rcases f2 with ⟨e2, hs⟩ | ⟨e2, w2, hs⟩ | ⟨e2, w2, hs⟩ <;>
+    simp only [List.cons_append, List.nil_append, List.cons.injEq] at hs
+    · obtain ⟨_, _, rfl⟩ := hs
+      by_cases hv : v1 = v2
+      · subst hv; right; left; rw [c1, c2]
+      · right; right
+        exact ⟨p1, v1, v2, e1, rfl, hv, c1, c2⟩
+    · exact absurd hs.2.1 (by decide)
+    · exact absurd hs.1 (by decide)
+    · exact absurd hs.2.1 (by decide)
+    · obtain ⟨_, _, rfl⟩ := hs
+      subst w1; subst w2
+      right; left; rw [c1, c2]
+    · exact absurd hs.1 (by decide)
+    · exact absurd hs.1 (by decide)
+    · exact absurd hs.1 (by decide)
+    · obtain ⟨_, _, rfl⟩ := hs
+      subst w1; subst w2
+      right; left; rw [c1, c2]
+  · -- segwit / base58
+    exfalso
+    rcases f1 with ⟨_, rfl⟩ | ⟨_, _, rfl⟩ | ⟨_, _, rfl⟩ <;>
+    rcases g2 with ⟨_, hs⟩ | ⟨_, hs⟩ <;>
+    simp only [List.cons_append, List.nil_append, List.cons.injEq] at hs <;>
+    exact absurd hs.1 (by decide)
+  · exfalso
+    rcases f2 with ⟨_, rfl⟩ | ⟨_, _, rfl⟩ | ⟨_, _, rfl⟩ <;>
+    rcases g1 with ⟨_, hs⟩ | ⟨_, hs⟩ <;>
+    simp only [List.cons_append, List.nil_append, List.cons.injEq] at hs <;>
+    exact absurd hs.1 (by decide)
+  · -- base58 / base58
+    left
+    rcases g1 with ⟨rfl, rfl⟩ | ⟨rfl, rfl⟩ <;> rcases g2 with ⟨rfl, hs⟩ | ⟨rfl, hs⟩ <;>
+    simp only [List.cons_append, List.nil_append, List.cons.injEq] at hs
+    · obtain ⟨_, _, _, hs⟩ := hs
+      have : q1 = q2 := List.append_inj_left hs (by omega)
+      rw [this]
+    · exact absurd hs.1 (by decide)
+    · exact absurd hs.1 (by decide)
+    · obtain ⟨_, _, hs⟩ := hs
+      have : q1 = q2 := List.append_inj_left hs (by omega)
+      rw [this]
+
+theorem utf8_injective {s1 s2 : String} (h : utf8 s1 = utf8 s2) : s1 = s2 := by
+  unfold utf8 at h
+  apply String.toByteArray_inj.mp
+  apply ByteArray.ext
+  rw [String.toUTF8_eq_toByteArray, String.toUTF8_eq_toByteArray] at h
+  exact Array.toList_inj.mp h
+
+/-! ## 5. Injectivity -/
+
+/-- `decode_injective_on_types` at full strength ("different accepted strings with the same script
+    differ only by case") is FALSE, of the model and of the real function: the witness-version-1 and
+    the witness-version-0 address of the same 20-byte program are both accepted on mainnet and give the
+    same script (the first string was decoded by the real DecodeBtcAddress to this script). -/
+theorem decode_not_injective_on_types :
+    ∃ s1 s2 sc, decodeBtcAddress .mainnet s1 = some sc ∧ decodeBtcAddress .mainnet s2 = some sc ∧
+      lowerBytes (utf8 s1) ≠ lowerBytes (utf8 s2) :=
+  ⟨"bc1p79tajyyu2dh27wgxnwelexakq2fk693hrcjnk7", "bc1q79tajyyu2dh27wgxnwelexakq2fk693ha6457h",
+   [0x00, 0x14, 0xf1, 0x57, 0xd9, 0x10, 0x9c, 0x53, 0x6e, 0xaf, 0x39, 0x06, 0x9b, 0xb3, 0xfc, 0x9b,
+    0xb6, 0x02, 0x93, 0x6d, 0x16, 0x37], by decide +kernel, by decide +kernel, by decide +kernel⟩
+
+/-- **decode_injective_on_types_partial**: the strongest true statement.  Two accepted strings with
+    the same script are the same string (always so for base58check), or differ only by ASCII case
+    (bech32: all-lower vs all-upper), or are the version-0 / version-1 encodings of one 20-byte
+    program. -/
+theorem decode_injective_on_types_partial {net : Net} {s1 s2 : String} {sc : Bytes}
+    (h1 : decodeBtcAddress net s1 = some sc) (h2 : decodeBtcAddress net s2 = some sc) :
+    s1 = s2 ∨ lowerBytes (utf8 s1) = lowerBytes (utf8 s2) ∨
+    (∃ p v1 v2, p.length = 20 ∧ sc = [0x00, 0x14] ++ p ∧ v1 ≠ v2 ∧
+      lowerBytes (utf8 s1) = encodeSegwitBytes net.hrp v1 p ∧
+      lowerBytes (utf8 s2) = encodeSegwitBytes net.hrp v2 p) := by
+  rcases decode_injective_partial_bytes h1 h2 with h | h | h
+  · exact Or.inl (utf8_injective h)
+  · exact Or.inr (Or.inl h)
+  · exact Or.inr (Or.inr h)
+
+/-- Apart from the 20-byte quirk the decoder is injective up to case: for scripts that are not
+    P2WPKH-shaped, equal scripts mean equal strings up to ASCII case. -/
+theorem decode_injective_except_p2wpkh {net : Net} {s1 s2 : String} {sc : Bytes}
+    (h1 : decodeBtcAddress net s1 = some sc) (h2 : decodeBtcAddress net s2 = some sc)
+    (hsc : sc.take 2 ≠ [0x00, 0x14]) : lowerBytes (utf8 s1) = lowerBytes (utf8 s2) := by
+  rcases decode_injective_on_types_partial h1 h2 with h | h | ⟨p, _, _, _, rfl, _⟩
+  · rw [h]
+  · exact h
+  · exact absurd rfl hsc
+
+/-! ## 6. Non-vacuity: well-known addresses
+
+  The bech32 / bech32m vectors are evaluated by the kernel (`decide +kernel`, no extra axiom).  The
+  base58check vectors need SHA-256, whose model (GoatModel/Sha256.lean) uses `while` loops that the
+  kernel cannot unfold, so they are checked by evaluation (`#guard`); the general theorems above do
+  not depend on them. -/
+
+private def hx (s : String) : Option Bytes := fromHex s
+
+-- BIP-173 P2WPKH vector, lower and upper case; mixed case, wrong network, bad checksum are rejected
+example : decodeBtcAddress .mainnet "bc1qw508d6qejxtdg4y5r3zarvary0c5xw7kv8f3t4"
+    = hx "0014751e76e8199196d454941c45d1b3a323f1433bd6" := by decide +kernel
+example : decodeBtcAddress .mainnet "BC1QW508D6QEJXTDG4Y5R3ZARVARY0C5XW7KV8F3T4"
+    = hx "0014751e76e8199196d454941c45d1b3a323f1433bd6" := by decide +kernel
+example : decodeBtcAddress .mainnet "bc1qw508d6qejxtdg4y5r3zarvary0c5xW7kv8f3t4" = none := by decide +kernel
+example : decodeBtcAddress .mainnet "Bc1qw508d6qejxtdg4y5r3zarvary0c5xw7kv8f3t4" = none := by decide +kernel
+example : decodeBtcAddress .mainnet "bc1qw508d6qejxtdg4y5r3zarvary0c5xw7kv8f3t5" = none := by decide +kernel
+example : decodeBtcAddress .testnet3 "bc1qw508d6qejxtdg4y5r3zarvary0c5xw7kv8f3t4" = none := by decide +kernel
+example : decodeBtcAddress .regtest "bc1qw508d6qejxtdg4y5r3zarvary0c5xw7kv8f3t4" = none := by decide +kernel
+-- BIP-173 P2WSH testnet vector: accepted on testnet3 and signet (same "tb"), not elsewhere
+example : decodeBtcAddress .testnet3 "tb1qrp33g0q5c5txsp9arysrx4k6zdkfs4nce4xj0gdcccefvpysxf3q0sl5k7"
+    = hx "00201863143c14c5166804bd19203356da136c985678cd4d27a1b8c6329604903262" := by decide +kernel
+example : decodeBtcAddress .signet "tb1qrp33g0q5c5txsp9arysrx4k6zdkfs4nce4xj0gdcccefvpysxf3q0sl5k7"
+    = hx "00201863143c14c5166804bd19203356da136c985678cd4d27a1b8c6329604903262" := by decide +kernel
+example : decodeBtcAddress .mainnet "tb1qrp33g0q5c5txsp9arysrx4k6zdkfs4nce4xj0gdcccefvpysxf3q0sl5k7"
+    = none := by decide +kernel
+example : decodeBtcAddress .regtest "tb1qrp33g0q5c5txsp9arysrx4k6zdkfs4nce4xj0gdcccefvpysxf3q0sl5k7"
+    = none := by decide +kernel
+-- BIP-350 P2TR mainnet vector
+example : decodeBtcAddress .mainnet "bc1p0xlxvlhemja6c4dqv22uapctqupfhlxm9h8z3k2e72q4k9hcz7vqzk5jj0"
+    = hx "512079be667ef9dcbbac55a06295ce870b07029bfcdb2dce28d959f2815b16f81798" := by decide +kernel
+-- regtest addresses (produced by btcutil, decoded by the real function in the traces)
+example : decodeBtcAddress .regtest "bcrt1qqccu35lv6pkghvqnjhs83qtah6gy3ttx9c0qky"
+    = hx "00140631c8d3ecd06c8bb01395e078817dbe9048ad66" := by decide +kernel
+example : decodeBtcAddress .regtest "bcrt1phhu565xljwmecp22ue4205hj6qpdcfy6a6q5asa538qjn0a2d4gqrungwn"
+    = hx "5120bdf94d50df93b79c054ae66aa7d2f2d002dc249aee814ec3b489c129bfaa6d50" := by decide +kernel
+example : decodeBtcAddress .mainnet "bcrt1qqccu35lv6pkghvqnjhs83qtah6gy3ttx9c0qky" = none := by decide +kernel
+-- BIP-350 valid segwit addresses that btcutil does not support: v1 with 40 bytes, v16 with 2 bytes
+example : decodeBtcAddress .mainnet
+    "bc1pw508d6qejxtdg4y5r3zarvary0c5xw7kw508d6qejxtdg4y5r3zarvary0c5xw7kt5nd6y" = none := by
+  decide +kernel
+example : decodeBtcAddress .mainnet "BC1SW50QGDZ25J" = none := by decide +kernel
+-- BIP-350 invalid: version 0 with a bech32m checksum, version 1 with a bech32 checksum
+example : decodeBtcAddress .mainnet "bc1qw508d6qejxtdg4y5r3zarvary0c5xw7kemeawh" = none := by
+  decide +kernel
+example : decodeBtcAddress .mainnet "bc1p0xlxvlhemja6c4dqv22uapctqupfhlxm9h8z3k2e72q4k9hcz7vqh2y7hd"
+    = none := by decide +kernel
+-- the quirk, on the string the real DecodeBtcAddress was run on (mainnet, witness v1, 20 bytes):
+example : decodeBtcAddress .mainnet "bc1p79tajyyu2dh27wgxnwelexakq2fk693hrcjnk7"
+    = hx "0014f157d9109c536eaf39069bb3fc9bb602936d1637" := by decide +kernel
+-- hex public keys (the secp256k1 generator, compressed and uncompressed): rejected either way
+example : decodeBtcAddressWith (fun _ => true) .mainnet
+    "0279be667ef9dcbbac55a06295ce870b07029bfcdb2dce28d959f2815b16f81798" = none := by decide +kernel
+example : decodeBtcAddressWith (fun _ => false) .mainnet
+    "0279be667ef9dcbbac55a06295ce870b07029bfcdb2dce28d959f2815b16f81798" = none := by decide +kernel
+example : decodeBtcAddressWith (fun _ => true) .regtest
+    "0479be667ef9dcbbac55a06295ce870b07029bfcdb2dce28d959f2815b16f81798483ada7726a3c4655da4fbfc0e1108a8fd17b448a68554199c47d08ffb10d4b8"
+    = none := by decide +kernel
+-- the encoders produce the well-known strings
+example : encodeSegwit "bc" 0 ((hx "751e76e8199196d454941c45d1b3a323f1433bd6").getD [])
+    = "bc1qw508d6qejxtdg4y5r3zarvary0c5xw7kv8f3t4" := by decide +kernel
+example : encodeSegwit "bc" 1 ((hx "79be667ef9dcbbac55a06295ce870b07029bfcdb2dce28d959f2815b16f81798").getD [])
+    = "bc1p0xlxvlhemja6c4dqv22uapctqupfhlxm9h8z3k2e72q4k9hcz7vqzk5jj0" := by decide +kernel
+
+-- base58check (evaluated, SHA-256 involved)
+#guard decodeBtcAddress .mainnet "1BvBMSEYstWetqTFn5Au4m4GFg7xJaNVN2"
+    == hx "76a91477bff20c60e522dfaa3350c39b030a5d004e839a88ac"
+#guard decodeBtcAddress .mainnet "3J98t1WpEZ73CNmQviecrnyiWrnqRhWNLy"
+    == hx "a914b472a266d0bd89c13706a4132ccfb16f7c3b9fcb87"
+#guard decodeBtcAddress .regtest "mfkwyMjVzW2wkBmePJr1zqRH5Ujf6ezrhf"
+    == hx "76a91402a58dec6d41fbcc06ae214ea201006af864786a88ac"
+#guard decodeBtcAddress .testnet3 "mfkwyMjVzW2wkBmePJr1zqRH5Ujf6ezrhf"
+    == hx "76a91402a58dec6d41fbcc06ae214ea201006af864786a88ac"
+#guard decodeBtcAddress .mainnet "mfkwyMjVzW2wkBmePJr1zqRH5Ujf6ezrhf" == none
+#guard decodeBtcAddress .testnet3 "1BvBMSEYstWetqTFn5Au4m4GFg7xJaNVN2" == none
+#guard decodeBtcAddress .signet "3J98t1WpEZ73CNmQviecrnyiWrnqRhWNLy" == none
+#guard decodeBtcAddress .mainnet "1BvBMSEYstWetqTFn5Au4m4GFg7xJaNVN3" == none   -- checksum
+#guard decodeBtcAddress .mainnet "1BvBMSEYstWetqTFn5Au4m4GFg7xJaNVN0" == none   -- '0' is not base58
+#guard encodeBase58Check 0x00 ((hx "77bff20c60e522dfaa3350c39b030a5d004e839a").getD [])
+    == "1BvBMSEYstWetqTFn5Au4m4GFg7xJaNVN2"
+#guard encodeBase58Check 0x05 ((hx "b472a266d0bd89c13706a4132ccfb16f7c3b9fcb").getD [])
+    == "3J98t1WpEZ73CNmQviecrnyiWrnqRhWNLy"
+
 end Goat.C17A
